@@ -64,9 +64,10 @@ func opSteps(op *operator.Operator) []string {
 
 // genResult is what one generation attempt produced.
 type genResult struct {
-	ops []*operator.Operator
-	api string
-	err error
+	ops   []*operator.Operator
+	api   string
+	err   error
+	batch bool // several independent operators for different regions handed over in one call
 }
 
 func pickKind(rng *rand.Rand, admin bool) operator.OpKind {
